@@ -78,6 +78,19 @@ def build_world(desc, reset=True):
                     material_basis=units["material_basis"], material_unit=units["material_unit"])
         iso.convert_temperature(units["temperature_unit"])
         world[key] = iso
+    # the same data on an adsorbate WITHOUT thermodynamic backend whose constants the user supplied (documented fallback)
+    uf = ru.UserFluid(101325.0, 30.07, 0.018, 6.5e-5)
+    for a in list(ADSORBATE_LIST):
+        if a.name == "verif-user-gas":
+            ADSORBATE_LIST.remove(a)
+    pygaps.Adsorbate("verif-user-gas", store=True, **ru.user_fluid_properties(uf))
+    df_u = pd.DataFrame({"pressure": p, "loading": l * 0.8, "branch": br, "enthalpy": np.linspace(20, 8, len(p)).round(6)})
+    world["U"] = pygaps.PointIsotherm(
+        isotherm_data=df_u, pressure_key="pressure", loading_key="loading",
+        material=pygaps.Material(desc["material"]["name"], density=desc["material"]["density"],
+                                 molar_mass=desc["material"]["molar_mass"]),
+        adsorbate="verif-user-gas", temperature=77.355, pressure_mode="relative", pressure_unit=None, loading_basis="molar",
+        loading_unit="mmol", material_basis="mass", material_unit="g", temperature_unit="K", user="verif")
     for key, gas, kk in (("M1", "methane", 1.3), ("M2", "ethane", 4.0), ("M3", "methane", 2.0)):
         m = pgm.get_isotherm_model("Langmuir" if key != "M3" else "Toth")
         m.params = {"K": kk * desc["shape"]["C"] / 50.0, "n_m": desc["shape"]["nm"]}
@@ -150,6 +163,7 @@ def clear_caches():
     saved = {key: (dict(obj) if isinstance(obj, dict) else list(obj) if isinstance(obj, list) else set(obj))
              for key, (obj, _) in _MODULE_STATE.items()}
     saved["@numpy_err"] = dict(np.geterr())
+    saved["@extra_ads"] = [a for a in ADSORBATE_LIST if not any(a is b for b in K._ADS_SNAPSHOT)]
     reset_module_state()
     ADSORBATE_LIST[:] = [Adsorbate(**copy.deepcopy(a.to_dict())) for a in K._ADS_SNAPSHOT]
     return saved
@@ -157,7 +171,7 @@ def clear_caches():
 
 def restore_registry(saved):
     """Give the history world its own process-global state back (registry objects and module-level containers)."""
-    ADSORBATE_LIST[:] = K._ADS_SNAPSHOT
+    ADSORBATE_LIST[:] = list(K._ADS_SNAPSHOT) + saved.pop("@extra_ads")
     np.seterr(**saved.pop("@numpy_err"))
     for key, content in saved.items():
         _set_content(_MODULE_STATE[key][0], content)
@@ -380,7 +394,7 @@ _KW = {  # documented keyword arguments that callers usually leave at their defa
 
 
 def _op(focus=None):
-    iso = st.sampled_from(["A", "A", "B"])
+    iso = st.sampled_from(["A", "A", "B", "U"])
     br = st.sampled_from(_BR)
     q = st.floats(0, 1)
     req = st.builds(lambda p, l, m: {"prep": p, "lrep": l, "mrep": m}, st.one_of(st.none(), S.p_rep()),
